@@ -259,6 +259,9 @@ def c06 (g : Globals) (d : Builder.Decl) : Option String :=
   if unsupportedFields d.fields then some "excluded:unsupported-go-type"
   else if columnCounts d.fields == 0 then some "excluded:no-columns"
   else if prefixedPreviousL false d.fields then some "previous-name-in-prefixed-embedded-struct"
+  else if anyTags (fun t => (t.splitOn ",previous:").length > 1 && ((t.splitOn ";").map Builder.snake).any (fun n =>
+      n == "index" || n == "unique" || n.startsWith "index:" || n.startsWith "unique:" || n.startsWith "index_type:" ||
+      n.startsWith "index_columns:")) d.fields then some "previous-name-with-index"
   else if anyTags indexBeforeColumn d.fields then some "index-tag-before-column-tag"
   else if anyTags (fun t => ((toUpperAscii t).splitOn "PRIMARY KEY").length > 1) d.fields then some "comment-contains-primary-key"
   else match g.dialect with
